@@ -1,0 +1,34 @@
+//go:build verif
+
+// Package verifhooks re-exports internal packages for the verification
+// harness that lives outside this module (build tag verif only).
+package verifhooks
+
+import (
+	"time"
+
+	"github.com/aptpod/iscp-go/internal/retry"
+	"github.com/aptpod/iscp-go/internal/segment"
+)
+
+type (
+	SegmentSender      = segment.Sender
+	SegmentReadBuffers = segment.ReadBuffers
+	SegmentReadBuffer  = segment.ReadBuffer
+)
+
+func SegmentSendTo(wr segment.Sender, seqNum uint32, msgPayload []byte) (int, error) {
+	return segment.SendTo(wr, seqNum, msgPayload)
+}
+
+func SegmentSetMaxPayloadSize(size int) (restore func()) {
+	return segment.VerifSetMaxPayloadSize(size)
+}
+
+func SegmentMaxPayloadSize() int { return segment.VerifMaxPayloadSize() }
+
+func SegmentSetTimeNow(f func() time.Time) (restore func()) { return segment.VerifSetTimeNow(f) }
+
+func RetrySetDefaultIntervals(base, max time.Duration) (restore func()) {
+	return retry.VerifSetDefaultIntervals(base, max)
+}
